@@ -46,11 +46,13 @@ import (
 	"path/filepath"
 	"regexp"
 	"runtime"
+	"runtime/debug"
 	"runtime/pprof"
 	"sort"
 	"strings"
 	"sync"
 	"sync/atomic"
+	"syscall"
 	"time"
 
 	"github.com/containerd/stargz-snapshotter/cache"
@@ -304,20 +306,21 @@ type round struct {
 // drawLen: 0...256 KiB, every boundary in play, but skewed to small values: under the race
 // detector every fresh large allocation (bytes.Buffer growth inside the cache) costs
 // milliseconds of shadow-memory page faults that serialise the whole process, which would
-// leave no budget for interleavings. Large values stay in (about 1 in 25 writers).
+// leave no budget for interleavings (measured: one fresh 256 KiB buffer = 100-300 ms on this VM).
+// Values above 16 KiB stay in at about 1 writer in 25, above 64 KiB at 1 in 70.
 func drawLen(rng *prng.R) int {
-	switch x := rng.Intn(100); {
-	case x < 5:
-		return 0
+	switch x := rng.Intn(200); {
 	case x < 10:
+		return 0
+	case x < 20:
 		return rng.Range(1, hdrLen-1)
-	case x < 13:
+	case x < 23:
 		return rng.Pick(hdrLen, hdrLen+1, 4095, 4096, 4097, 50000, 65536, maxLen-1, maxLen)
-	case x < 60:
+	case x < 130:
 		return rng.Range(hdrLen, 1024)
-	case x < 90:
+	case x < 191:
 		return rng.Range(1025, 8192)
-	case x < 98:
+	case x < 198:
 		return rng.Range(8193, 64<<10)
 	default:
 		return rng.Range(64<<10, maxLen)
@@ -967,6 +970,15 @@ func (g *gstate) run() {
 // ---------------------------------------------------------------------------
 // round driver
 
+// cpuMillis: user+system CPU time of this process (rounds run one after the other).
+func cpuMillis() int64 {
+	var ru syscall.Rusage
+	if syscall.Getrusage(syscall.RUSAGE_SELF, &ru) != nil {
+		return 0
+	}
+	return (ru.Utime.Sec+ru.Stime.Sec)*1000 + int64(ru.Utime.Usec+ru.Stime.Usec)/1000
+}
+
 func countWip(dir string) int {
 	ents, err := os.ReadDir(filepath.Join(dir, "wip"))
 	if err != nil {
@@ -977,9 +989,9 @@ func countWip(dir string) int {
 
 func runRound(r *vf.Run, rd *round, bufs [][]byte) (goOn bool) {
 	r.Eval(1)
-	tStart := time.Now()
+	cpu0 := cpuMillis()
 	defer func() {
-		r.Count(fmt.Sprintf("wall_ms[%s direct=%v syncAdd=%v fadv=%v]", rd.cfg.Kind, rd.cfg.Direct, rd.cfg.SyncAdd, rd.cfg.Fadv), int(time.Since(tStart).Milliseconds()))
+		r.Count(fmt.Sprintf("cpu_ms[%s direct=%v syncAdd=%v fadv=%v]", rd.cfg.Kind, rd.cfg.Direct, rd.cfg.SyncAdd, rd.cfg.Fadv), int(cpuMillis()-cpu0))
 	}()
 	root := filepath.Join(r.Scratch, fmt.Sprintf("round-%d", rd.idx))
 	c, dir, ev, err := newCache(rd.cfg, root)
@@ -1118,12 +1130,13 @@ func sampleOps(rd *round, g, n int) []string {
 }
 
 func body(r *vf.Run) {
+	debug.SetGCPercent(400) // fewer GC cycles = less shadow-memory churn in the race build; the harness heap is small
 	configs := allConfigs()
 	if pf := os.Getenv("C11_PROF"); pf != "" {
 		f, _ := os.Create(pf)
 		pprof.StartCPUProfile(f)
 		defer pprof.StopCPUProfile()
-		configs = configs[16:]
+		configs = configs[0:1]
 	}
 	n := r.N(17*8, 17*110)
 	if os.Getenv("C11_PROF") != "" {
